@@ -32,14 +32,15 @@ sys.path.insert(0, os.path.dirname(os.path.abspath(__file__)))
 from gen_src import Unsupported, scope_bindings, declared_global, imported_once, cstr, zlit, byteslit  # noqa: E402
 
 BINOPS = {ast.Add: "OAdd", ast.Sub: "OSub", ast.Mult: "OMul", ast.LShift: "OShl", ast.RShift: "OShr",
-          ast.BitAnd: "OAnd", ast.BitOr: "OOr", ast.BitXor: "OXor"}
+          ast.BitAnd: "OAnd", ast.BitOr: "OOr", ast.BitXor: "OXor", ast.Div: "ODiv"}
 CMPOPS = {ast.Eq: "CEq", ast.NotEq: "CNe", ast.Lt: "CLt", ast.LtE: "CLe", ast.Gt: "CGt", ast.GtE: "CGe",
           ast.In: "CIn", ast.NotIn: "CNotIn", ast.Is: "CIs", ast.IsNot: "CIsNot"}
 UNOPS = {ast.Not: "UNot", ast.Invert: "UInv", ast.USub: "UNeg"}
 BUILTIN_EXC = ["EOFError", "OSError", "TimeoutError", "ValueError", "IndexError", "KeyError", "TypeError", "AttributeError",
                "OverflowError", "StopIteration", "Exception"]
 LIB_EXC = ["RTCMMessageError", "RTCMParseError", "RTCMStreamError", "RTCMTypeError"]
-BUILTINS = ["len", "bytes", "bytearray", "int", "str", "min", "isinstance", "getattr", "setattr", "super", "staticmethod", "property"]
+BUILTINS = ["len", "bytes", "bytearray", "int", "str", "min", "isinstance", "getattr", "setattr", "super", "staticmethod", "property",
+            "chr", "bin", "range", "tuple", "Exception"]
 CONST_MODULE = "pyrtcm.rtcmtypes_core"
 
 SPEC = {
@@ -72,6 +73,23 @@ SPEC = {
         # read-only module tables, by the module that must bind them: X[k] and X.get(k, d) are questions to the environment
         "tables": {"RTCM_MSGIDS": "pyrtcm.rtcmtypes_core", "RTCM_PAYLOADS_GET": "pyrtcm.rtcmtypes_get",
                    "RTCM_PAYLOADS_GET_MSM": "pyrtcm.rtcmtypes_get_msm", "RTCM_PAYLOADS_GET_IGS": "pyrtcm.rtcmtypes_get_igs"},
+        "exc_alias": {},
+        "zconsts": {},
+    },
+    # the whole constructor path of RTCMMessage incl. the recursive table-driven decoder: every method may call every method
+    # (PyO.rlink, with a call-depth budget); emitted under its own names beside the non-recursive program above
+    "msgdec": {
+        "file": "rtcmmessage.py", "cls": "RTCMMessage",
+        "methods": ["__init__", "_do_attributes", "_set_attribute", "_set_attribute_optional", "_set_attribute_group", "_set_attribute_single",
+                    "_getsatcellmaps", "_get_dict", "_do_unknown", "identity", "__setattr__"],
+        "static": [],
+        "props": ["identity"],
+        "abstract": [],
+        "setattr_mode": True,
+        "recursive": True,
+        "ext": {},
+        "tables": {"RTCM_PAYLOADS_GET": "pyrtcm.rtcmtypes_get", "RTCM_PAYLOADS_GET_MSM": "pyrtcm.rtcmtypes_get_msm",
+                   "RTCM_PAYLOADS_GET_IGS": "pyrtcm.rtcmtypes_get_igs", "RTCM_DATA_FIELDS": "pyrtcm.rtcmtypes_core", "PRNSIGMAP": "pyrtcm.rtcmtables"},
         "exc_alias": {},
         "zconsts": {},
     },
@@ -119,6 +137,8 @@ class Ctx:
                         self.consts[c] = ("int", v.value)
                     elif isinstance(v, ast.Constant) and isinstance(v.value, bytes):
                         self.consts[c] = ("bytes", v.value)
+                    elif isinstance(v, ast.Constant) and isinstance(v.value, str) and all(32 <= ord(ch) < 127 and ch != '"' for ch in v.value):
+                        self.consts[c] = ("str", v.value)
                     elif isinstance(v, (ast.List, ast.Tuple)) and all(isinstance(e, ast.Constant) and isinstance(e.value, bytes) for e in v.elts):
                         self.consts[c] = ("byteslist", [e.value for e in v.elts])
         for c, val in spec["zconsts"].items():
@@ -246,11 +266,13 @@ class Meth:
         for p, d in zip(names[len(names) - nd:], a.defaults):
             self.defaults[p] = d                 # translated in the CALLER's position, must be a constant expression
         self.locals = []
+        self.mutated = set()             # locals holding a list that is mutated in place (append / pop / item assignment)
         body = list(node.body)
         if body and isinstance(body[0], ast.Expr) and isinstance(body[0].value, ast.Constant) and isinstance(body[0].value.value, str):
             body = body[1:]
         self.collect(body)
         self.calls = set()
+        self.callsites = []
         self.body = self.stmts(body)
 
     # ---- scoping
@@ -259,7 +281,7 @@ class Meth:
             for n in ast.walk(s):
                 if isinstance(n, (ast.Global, ast.Nonlocal, ast.Lambda, ast.FunctionDef, ast.AsyncFunctionDef, ast.ClassDef, ast.NamedExpr,
                                   ast.ListComp, ast.GeneratorExp, ast.SetComp, ast.DictComp, ast.With, ast.AsyncWith, ast.Delete,
-                                  ast.Import, ast.ImportFrom, ast.Yield, ast.YieldFrom, ast.Await, ast.Match, ast.For, ast.AsyncFor,
+                                  ast.Import, ast.ImportFrom, ast.Yield, ast.YieldFrom, ast.Await, ast.Match, ast.AsyncFor,
                                   ast.Starred, ast.Assert, ast.AnnAssign)):
                     raise Unsupported("%s: %s (line %d)" % (self.name, type(n).__name__, getattr(n, "lineno", 0)))
                 if isinstance(n, ast.Name) and isinstance(n.ctx, ast.Store) and n.id not in self.params and n.id not in self.locals:
@@ -284,6 +306,8 @@ class Meth:
             return "(EInt srco_const_%s)" % name
         if kind == "bytes":
             return "(EBytes srco_const_%s)" % name
+        if kind == "str":
+            return "(EStr srco_const_%s)" % name
         return "(ETuple (map EBytes srco_const_%s))" % name
 
     def exprs(self, es):
@@ -321,6 +345,12 @@ class Meth:
             if e.attr in self.ctx.defs:
                 raise U("method %s used as a value" % e.attr)
             return "(ESelf %s)" % cstr(e.attr)
+        if isinstance(e, ast.IfExp):
+            return "(EIf %s %s %s)" % (self.expr(e.test), self.expr(e.body), self.expr(e.orelse))
+        if isinstance(e, ast.List) and isinstance(e.ctx, ast.Load) and self.ctx.spec.get("recursive"):
+            return "(EListLit %s)" % self.exprs(e.elts)           # a real list (may be mutated); tuples stay ETuple
+        if isinstance(e, ast.Dict) and not e.keys and self.ctx.spec.get("recursive"):
+            return "EDictEmpty"
         if isinstance(e, (ast.Tuple, ast.List)) and isinstance(e.ctx, ast.Load):
             return "(ETuple %s)" % self.exprs(e.elts)
         if isinstance(e, ast.UnaryOp) and type(e.op) in UNOPS:
@@ -420,6 +450,13 @@ class Meth:
                     return "(EExcNew %s %s)" % (cstr(self.ctx.exc[f.id]), self.exprs(e.args))
                 finally:
                     self._text_ctx = False
+            if f.id == "chr" and "chr" in self.ctx.builtins and len(e.args) == 1 and not kws:
+                return "(ECallB BChr [%s])" % self.expr(e.args[0])
+            if f.id == "int" and "int" in self.ctx.builtins and len(e.args) == 1 and not kws and self.ctx.spec.get("recursive"):
+                return "(ECallB BIntStr [%s])" % self.expr(e.args[0])
+            if (f.id == "isinstance" and "isinstance" in self.ctx.builtins and len(e.args) == 2 and not kws and isinstance(e.args[1], ast.Name)
+                    and e.args[1].id in ("tuple", "int") and e.args[1].id in self.ctx.builtins and not self.is_local(e.args[1].id)):
+                return "(ECallB %s [%s])" % ("BIsTuple" if e.args[1].id == "tuple" else "BIsInt", self.expr(e.args[0]))
             if f.id == "str" and "str" in self.ctx.builtins and len(e.args) == 1 and not kws:
                 return "(ECallB BStrOf [%s])" % self.expr(e.args[0])
             if (f.id == "getattr" and "getattr" in self.ctx.builtins and len(e.args) in (2, 3) and not kws and self.is_self(e.args[0])
@@ -471,6 +508,27 @@ class Meth:
                     return "(ECallRef (ESelf %s) %s %s)" % (cstr(f.value.attr), cstr(f.attr), self.exprs(e.args))
                 finally:
                     self._text_ctx = False
+            # bin(x).count("1")
+            if (f.attr == "count" and len(e.args) == 1 and not kws and isinstance(e.args[0], ast.Constant) and e.args[0].value == "1"
+                    and isinstance(f.value, ast.Call) and isinstance(f.value.func, ast.Name) and f.value.func.id == "bin" and "bin" in self.ctx.builtins
+                    and not self.is_local("bin") and len(f.value.args) == 1 and not f.value.keywords):
+                return "(ECallB BPopcount [%s])" % self.expr(f.value.args[0])
+            if self.ctx.spec.get("recursive"):
+                # x.split("<one character>")
+                if (f.attr == "split" and len(e.args) == 1 and not kws and isinstance(e.args[0], ast.Constant) and isinstance(e.args[0].value, str)
+                        and len(e.args[0].value) == 1):
+                    return "(ECallB BSplit [%s; EStr %s])" % (self.expr(f.value), cstr(e.args[0].value))
+                # <local list>.append(v) / .pop()
+                if isinstance(f.value, ast.Name) and self.is_local(f.value.id) and not kws:
+                    if f.attr == "append" and len(e.args) == 1:
+                        self.mutated.add(f.value.id)
+                        return "(EListAppend %s %s)" % (cstr(f.value.id), self.expr(e.args[0]))
+                    if f.attr == "pop" and not e.args:
+                        self.mutated.add(f.value.id)
+                        return "(EListPop %s)" % cstr(f.value.id)
+                # <dict>.get(k, d) on a local / attribute value (tables of the environment were handled above)
+                if f.attr == "get" and len(e.args) == 2 and not kws and isinstance(f.value, (ast.Name, ast.Attribute)):
+                    return "(EMethGet %s %s %s)" % (self.expr(f.value), self.expr(e.args[0]), self.expr(e.args[1]))
             # <local>.readline() / <local>.read(n) / <expr>.strip()
             if isinstance(f.value, ast.Name) and self.is_local(f.value.id) and not kws:
                 if f.attr == "readline" and not e.args:
@@ -531,6 +589,7 @@ class Meth:
             else:
                 out.append(self.expr(slots[i][1]))
         self.calls.add(m)
+        self.callsites.append((m, [slots[i][1] if slots[i] is not None else None for i in range(len(pnames))], getattr(self, "_cur_stmt", None)))
         return "(ECallM %s %s)" % (cstr(m), coqlist(out))
 
     # ---- statements
@@ -564,10 +623,34 @@ class Meth:
         return coqlist(out)
 
     def stmt(self, s):
+        self._cur_stmt = s
         if (isinstance(s, ast.Assign) and self.ctx.setattr_mode and len(s.targets) == 1 and isinstance(s.targets[0], ast.Attribute)
                 and isinstance(s.targets[0].value, ast.Name) and s.targets[0].value.id == self.selfname and self.selfname is not None):
             # self.x = v  in a class that overrides __setattr__
             return "SExpr (ESetattrSelf %s (EStr %s) %s)" % (self.ctx.reserved_term, cstr(s.targets[0].attr), self.expr(s.value))
+        if (isinstance(s, ast.Assign) and len(s.targets) > 1 and isinstance(s.value, ast.Constant) and all(isinstance(t, ast.Name) for t in s.targets)
+                and (s.value.value is None or isinstance(s.value.value, (int, str, bytes)))):
+            # a = b = <constant>: the constant assigned to each name, left to right
+            return "; ".join("SAssign %s %s" % (self.target(t), self.expr(s.value)) for t in s.targets)
+        if isinstance(s, ast.Assign) and len(s.targets) == 1 and isinstance(s.targets[0], ast.Subscript) and not isinstance(s.targets[0].slice, (ast.Slice, ast.Tuple)):
+            t = s.targets[0]
+            if isinstance(t.value, ast.Name) and self.is_local(t.value.id):
+                self.mutated.add(t.value.id)
+                return "SSetItemLocal %s %s %s" % (cstr(t.value.id), self.expr(t.slice), self.expr(s.value))
+            if (isinstance(t.value, ast.Attribute) and isinstance(t.value.value, ast.Name) and t.value.value.id == self.selfname and self.selfname is not None
+                    and t.value.attr not in self.ctx.defs):
+                return "SSetItemSelf %s %s %s" % (cstr(t.value.attr), self.expr(t.slice), self.expr(s.value))
+            raise Unsupported("%s: item assignment target" % self.name)
+        if isinstance(s, ast.For):
+            if s.orelse:
+                raise Unsupported("%s: for-else" % self.name)
+            it = s.iter
+            if (isinstance(it, ast.Call) and isinstance(it.func, ast.Name) and it.func.id == "range" and "range" in self.ctx.builtins and not self.is_local("range")
+                    and len(it.args) == 1 and not it.keywords):
+                i = "(ItRange %s)" % self.expr(it.args[0])
+            else:
+                i = "(ItValue %s)" % self.expr(it)
+            return "SFor %s %s %s" % (self.target(s.target), i, self.stmts(s.body))
         if isinstance(s, ast.Assign):
             if len(s.targets) != 1:
                 raise Unsupported("%s: chained assignment" % self.name)
@@ -616,6 +699,46 @@ class Meth:
             coqlist([cstr(p) for p in self.params]), coqlist([cstr(x) for x in self.locals]), self.body)
 
 
+def discipline(meths):
+    """lists have VALUE semantics in PyO.  That is exact as long as a list that some method mutates in place is never reachable
+    through two names at a time; the translated text must therefore obey: a parameter that a method mutates (directly, or by passing
+    it on to a parameter another method mutates) is, at every call site, given a bare local name x, and that very statement rebinds x
+    from the call's result (`.., x = self.m(.., x)`); every `return` of such a method returns a tuple that contains the parameter."""
+    mut = {n: set(p for p in m.params if p in m.mutated) for n, m in meths.items()}
+    changed = True
+    while changed:
+        changed = False
+        for n, m in meths.items():
+            for (callee, args, stmt) in m.callsites:
+                for j, a in enumerate(args):
+                    pn = meths[callee].params[j] if j < len(meths[callee].params) else None
+                    if pn in mut[callee] and isinstance(a, ast.Name) and a.id in m.params and a.id not in mut[n]:
+                        mut[n].add(a.id)
+                        changed = True
+    for n, m in meths.items():
+        for (callee, args, stmt) in m.callsites:
+            for j, a in enumerate(args):
+                pn = meths[callee].params[j] if j < len(meths[callee].params) else None
+                if pn in mut[callee]:
+                    ok = (isinstance(a, ast.Name) and isinstance(stmt, ast.Assign) and len(stmt.targets) == 1 and isinstance(stmt.targets[0], ast.Tuple)
+                          and any(isinstance(t, ast.Name) and t.id == a.id for t in stmt.targets[0].elts))
+                    if not ok:
+                        raise Unsupported("%s: the list passed to %s(%s) is mutated there but not rebound from the result in the same statement (line %d)"
+                                          % (n, callee, pn, stmt.lineno))
+        if mut[n]:
+            for r in ast.walk(m.node):
+                if isinstance(r, ast.Return):
+                    if not (isinstance(r.value, ast.Tuple) and all(any(isinstance(x, ast.Name) and x.id == p for x in r.value.elts) for p in mut[n])):
+                        raise Unsupported("%s: mutates its parameter(s) %s but a return does not hand them back (line %d)" % (n, sorted(mut[n]), r.lineno))
+        # a mutated local list that is not a parameter must not be passed on or stored
+        for x in m.mutated - set(m.params):
+            for node in ast.walk(m.node):
+                if isinstance(node, ast.Call):
+                    for a in list(node.args) + [k.value for k in node.keywords]:
+                        if isinstance(a, ast.Name) and a.id == x and not (isinstance(node.func, ast.Name) and node.func.id in ("len",)):
+                            raise Unsupported("%s: the locally built list %s is passed to a call" % (n, x))
+
+
 def check_self_uses(m):
     """every occurrence of the self parameter is the object of an attribute access"""
     if m.selfname is None:
@@ -661,9 +784,14 @@ def translate(repo, key, out):
         state[n] = 2
         order.append(n)          # callees first
 
-    for name in spec["methods"]:
-        visit(name)
+    if spec.get("recursive"):
+        order = list(reversed(spec["methods"]))
+    else:
+        for name in spec["methods"]:
+            visit(name)
     order.reverse()              # callers first, callees later
+    if spec.get("recursive"):
+        discipline(meths)
     if ctx.setattr_mode:
         if meths["__setattr__"].calls:
             raise Unsupported("__setattr__ calls other methods")
@@ -680,6 +808,8 @@ def translate(repo, key, out):
             out.append("Definition srco_const_%s : Z := %s." % (c, zlit(v)))
         elif kind == "bytes":
             out.append("Definition srco_const_%s : list Coq.Init.Byte.byte := %s." % (c, byteslit(v)))
+        elif kind == "str":
+            out.append("Definition srco_const_%s : string := %s." % (c, cstr(v)))
         else:
             out.append("Definition srco_const_%s : list (list Coq.Init.Byte.byte) := %s." % (c, coqlist([byteslit(x) for x in v])))
     for name in spec["methods"]:
@@ -691,7 +821,7 @@ def translate(repo, key, out):
 
 def main():
     repo = os.environ.get("VERIF_REPO", "/repo")
-    which = sys.argv[2:] or ["sock", "reader", "msg"]       # the module is named after the file: SrcOSock.v / SrcOReader.v / SrcO.v (both)
+    which = sys.argv[2:] or ["sock", "reader", "msg", "msgdec"]       # the module is named after the file: SrcOSock.v / SrcOReader.v / SrcO.v (both)
     out = ["(* GENERATED by tools/gen_src2.py from %s/src/pyrtcm/{socketwrapper,rtcmreader,rtcmtypes_core,exceptions}.py -- do not edit *)" % repo,
            "From Coq Require Import ZArith List String.", "From PyRtcm Require Import Src.PyO.",
            "Import ListNotations.", "Open Scope string_scope.", "Open Scope Z_scope.", ""]
